@@ -7,6 +7,9 @@ From Coq Require Import List ZArith Bool.
 Require Import Cox.Num.Ops Cox.Geo.Vec.
 Import ListNotations.
 
+(* (p+1) mod 3 for p < 3 *)
+Definition next3 (p : nat) : nat := match p with 0%nat => 1%nat | 1%nat => 2%nat | _ => 0%nat end.
+
 Section Polygon.
   Context {T : Type} (O : Ops T).
   Notation V3 := (vec3 T).
@@ -28,7 +31,7 @@ Section Polygon.
 
   (* sum( roll(v,-1)[:,c1] * (roll(v,-2)[:,c2] - v[:,c2]) ) *)
   Definition sproj (p : nat) (V : list V3) : T :=
-    let c1 := Nat.modulo (p + 1) 3 in let c2 := Nat.modulo (p + 2) 3 in
+    let c1 := next3 p in let c2 := next3 (next3 p) in
     osum O (map (fun t => omul O (vcomp c1 (fst (snd t)))
                                  (osub O (vcomp c2 (snd (snd t))) (vcomp c2 (fst t))))
                 (ctriples V)).
